@@ -16,7 +16,8 @@ _EXACT_BETAS = [0.0, 0.125, 0.5, 1.0, 3.0, 17.375, 1024.0, float(2 ** 30)]
 
 
 @st.composite
-def cost_case(draw, classes=("E", "E", "F"), shapes=("tiny", "tiny", "tiny", "small", "small", "long", "wide")):
+def cost_case(draw, classes=("E", "E", "F"), shapes=("tiny", "tiny", "tiny", "small", "small", "long", "wide"),
+              dtypes=()):
     cls = draw(st.sampled_from(list(classes)))
     shape = draw(st.sampled_from(list(shapes)))
     if shape == "tiny":        # brute force possible
@@ -103,7 +104,15 @@ def cost_case(draw, classes=("E", "E", "F"), shapes=("tiny", "tiny", "tiny", "sm
             else:
                 beta_v = float(bscale * rng.uniform(0, 1))
         cost = np.ascontiguousarray(cost, dtype=np.float64)
-    return {"cls": cls, "shape": shape, "cost": cost, "beta": beta_v}
+    case = {"cls": cls, "shape": shape, "cost": cost, "beta": beta_v}
+    if cls == "E" and dtypes and draw(st.integers(0, 7)) == 0:
+        # the same exact-arithmetic table handed over in another real dtype (values exactly representable there)
+        dt = draw(st.sampled_from(list(dtypes)))
+        if dt.startswith("int"):
+            cost = np.round(cost)
+        case["cost"] = np.ascontiguousarray(cost.astype(dt).astype(np.float64))
+        case["dtype"] = dt
+    return case
 
 
 # ----------------------------------------------------------------------------- end-to-end run configurations
